@@ -60,9 +60,13 @@ PairSymbolsQ == {"orig-1", "orig+1", "rem+1", "u32max"}
 PairPlan == LET S == IF Thorough THEN PairSymbols ELSE PairSymbolsQ
             IN  {[arch |-> "pair", role |-> a, val |-> b] : a \in S, b \in S}
 
+\* structured regions (MPQ special files: header + inner arrays stored as a file in the file): the whole region and
+\* each inner array one byte / one element shorter or longer than the container and the header flags say
+ResizePlan == {[arch |-> "resize", role |-> r, val |-> v] : r \in {"tail", "array"}, v \in {"-1b", "+1b", "-1e", "+1e"}}
+
 HavocPlan == IF Thorough THEN {[arch |-> "havoc", role |-> "-", val |-> "4000"]} ELSE {}
 
-Plan == SetToSeq(FieldPlan) \o SetToSeq(PrefixPlan) \o SetToSeq(ChunkPlan) \o SetToSeq(PairPlan) \o SetToSeq(HavocPlan)
+Plan == SetToSeq(FieldPlan) \o SetToSeq(PrefixPlan) \o SetToSeq(ChunkPlan) \o SetToSeq(PairPlan) \o SetToSeq(ResizePlan) \o SetToSeq(HavocPlan)
 Cases == [i \in 1..Len(Plan) |-> [id |-> i, arch |-> Plan[i].arch, role |-> Plan[i].role, val |-> Plan[i].val]]
 ASSUME ndJsonSerialize(IOEnv.CASES, Cases)
 ASSUME PrintT(<<"GENERATED", Len(Cases), "field", Cardinality(FieldPlan), "prefix", Cardinality(PrefixPlan),
